@@ -22,7 +22,7 @@ use std::collections::HashMap;
 
 pub const META: Meta = Meta {
     level: "exploration",
-    rule: "size part: max_transmit_size in {100, 2048} (thorough: + 130, 9000) x every sequence of 1-3 publish RPCs with encoded length in {max-3..max+3} x every split of the stream into <= 3 chunks at cut positions around every prefix / frame boundary / frame middle (1 chunk = fully coalesced); limits part: max_publish_messages = 3, max_control_message_size = 40: sequences of 1-2 RPCs from {2, 3, 4 publishes; control+subscription size 36, 39, 40, 41, 45} x the same splits. Non-trivial = distinct (config, frames, cuts) cases with >= 2 frames or >= 2 chunks.",
+    rule: "size part: max_transmit_size in {100, 2048} (thorough: + 130, 9000) x every sequence of 1-3 publish RPCs with encoded length in {max-3..max+3} x every split of the stream into <= 3 chunks at cut positions around every prefix / frame boundary / frame middle (1 chunk = fully coalesced); limits part: max_publish_messages = 3, max_control_message_size = 40: sequences of 1-2 RPCs from {2, 3, 4 publishes; control+subscription size 36, 39, 40, 41, 45} x the same splits; mixed part: every RPC made of 2-4 fields in every order over {publish with 60 B data, control (GRAFT), subscription, unknown field with 50 B} containing at least one control/subscription field, alone and coalesced before/behind a publish frame, x the same splits (each limit is computed over its own fields only). Non-trivial = distinct (config, frames, cuts) cases with >= 2 frames or >= 2 chunks.",
     explanation: "Complete enumeration (E3); every case is decoded by the real GossipsubCodec in FramedRead over a scripted reader and compared with the statement's verdict per frame (decoded with right content / error at the first over-size frame).",
     assumptions: &["payload interiors represented by length only", "wire bytes built by an independent protobuf writer and cross-checked against the real encoder", "prost / unsigned-varint trusted"],
 };
@@ -39,6 +39,10 @@ pub enum Frame {
     NPub { n: usize },
     /// one subscription + one GRAFT; full-field control size exactly `size`
     Ctrl { size: usize },
+    /// one RPC mixing fields in the given order: 'P' = publish (60 B of data, more than the
+    /// control limit), 'C' = control with one GRAFT (7 B), 'S' = one subscription (9 B),
+    /// 'U' = unknown field 15 with 50 B
+    Mixed { order: String },
 }
 
 struct Built {
@@ -89,6 +93,34 @@ fn build(f: &Frame) -> Option<Built> {
             let body = W::new().msg(1, &sub).msg(3, &ctrl).finish();
             debug_assert_eq!(body.len(), *size);
             Some(Built { body, data_lens: vec![], subs: 1, grafts: 1, ctrl_hi: *size })
+        }
+        Frame::Mixed { order } => {
+            let mut w = W::new();
+            let (mut data_lens, mut subs, mut grafts, mut ctrl) = (Vec::new(), 0, 0, 0);
+            for ch in order.chars() {
+                let before = w.0.len();
+                match ch {
+                    'P' => {
+                        w = w.msg(2, &W::new().bytes(2, &[0xCD; 60]).bytes(4, b"t"));
+                        data_lens.push(60);
+                    }
+                    'C' => {
+                        w = w.msg(3, &W::new().msg(3, &W::new().bytes(1, b"g")));
+                        grafts += 1;
+                        ctrl += w.0.len() - before;
+                    }
+                    'S' => {
+                        w = w.msg(1, &W::new().uint(1, 1).bytes(2, b"sub"));
+                        subs += 1;
+                        ctrl += w.0.len() - before;
+                    }
+                    'U' => w = w.bytes(15, &[0xEE; 50]),
+                    _ => return None,
+                }
+            }
+            // each limit is computed over its own fields only: control size = bytes of the
+            // subscription and control fields, publish count = number of publish fields
+            Some(Built { body: w.finish(), data_lens, subs, grafts, ctrl_hi: ctrl })
         }
     }
 }
@@ -146,6 +178,13 @@ fn verdict(max: usize, f: &Frame, b: &Built) -> Verdict {
         }
         Frame::Ctrl { .. } => {
             if b.ctrl_hi <= MAX_CTRL {
+                Verdict::MustAccept
+            } else {
+                Verdict::Open
+            }
+        }
+        Frame::Mixed { .. } => {
+            if b.ctrl_hi <= MAX_CTRL && b.data_lens.len() <= MAX_PUB {
                 Verdict::MustAccept
             } else {
                 Verdict::Open
@@ -209,7 +248,10 @@ fn run_built(max: usize, frames: &[Frame], built: &[Built], cuts: &[usize], info
                     }
                     Verdict::Open => info.open_rejected += 1,
                     Verdict::MustAccept => {
-                        let class = if l + pre > max {
+                        let class = if matches!(f, Frame::Mixed { .. }) {
+                            // limits charged with bytes of other fields
+                            "mixed-field-order"
+                        } else if l + pre > max {
                             // the frame cannot pass even when it is alone in the read buffer
                             "frame-plus-length-prefix-exceeds-max"
                         } else if frames.len() > 1 || nchunks > 1 {
@@ -360,6 +402,24 @@ pub fn run(ctx: &Ctx) -> Outcome {
             }
             let frames: Vec<Frame> = ix.iter().map(|&i| alpha[i].clone()).collect();
             unit(2048, frames, &mut out, &mut info);
+        });
+        // ---- mixed RPCs: every field order of 2-4 fields over {publish, control, subscription,
+        // unknown}; publish / unknown bytes exceed the control limit but must not count towards it
+        mc::enumerate::sequences_upto(4, 4, |ix| {
+            if ix.len() < 2 {
+                return;
+            }
+            let order: String = ix.iter().map(|&i| ['P', 'C', 'S', 'U'][i]).collect();
+            if !order.contains('C') && !order.contains('S') {
+                return;
+            }
+            if ctx.worker.map_or(true, |w| w.0 == 0) {
+                out.count("mixed_field_order_rpcs", 1);
+            }
+            unit(2048, vec![Frame::Mixed { order: order.clone() }], &mut out, &mut info);
+            // and behind / in front of a plain publish frame (coalescing)
+            unit(2048, vec![Frame::NPub { n: 1 }, Frame::Mixed { order: order.clone() }], &mut out, &mut info);
+            unit(2048, vec![Frame::Mixed { order }, Frame::NPub { n: 1 }], &mut out, &mut info);
         });
         out.count("frames_accepted_exactly_at_a_limit", info.accepted_at_limit);
         out.count("frames_rejected_over_max_transmit_size", info.rejected_over);
